@@ -210,13 +210,31 @@ def run(ctx):
     from . import c03
     from .. import gen as _gen, parsing as _parsing
     b = I.es.ElasticsearchQueryBuilder(default_field="dflt", not_analyzed_fields=[])
-    for _ in range(ctx.budget(80, 1500)):
+    for _ in range(ctx.budget(160, 3000)):
         name = rng.choice(_gen.FIELDS + ["zone-12", "level+10", "iso-8859-15", "slotT10", "x-1", "a+22"])
         value = rng.choice([w for w in _gen.WORDS if ":" not in w and "\\" not in w and not w.startswith(("*", "?"))] + ["45", "15", "30x"])
         sep = rng.choice(["", "", " ", "\t"])
         q = "%s:%s%s" % (name, sep, value)
+        shape = ["TERM", "COLUMN", "TERM"]
+        k = rng.random()
+        if k < 0.35:
+            # the modifiers of the INPUT: `^n` and `~n` in every spelling of a number the syntax documents (seeded
+            # C06-G: `2.` and `.5` no longer lexed as one number, the rest becoming a phantom word)
+            num = rng.choice([n for n in _gen.NUMS if n])
+            kind = rng.choice(["^", "~", "p~", "f^"])
+            plain = rng.choice(["foo", "a", "x1", "héllo"])
+            if kind == "^":
+                q, shape = "%s^%s" % (plain, num), ["TERM", "BOOST"]
+            elif kind == "~":
+                q, shape = "%s~%s" % (plain, num), ["TERM", "APPROX"]
+            elif kind == "p~":
+                q, shape = '"a b"~%s' % rng.choice(["1", "2", "03", "10"]), ["PHRASE", "APPROX"]
+            else:
+                q, shape = "f:%s^%s" % (plain, num), ["TERM", "COLUMN", "TERM", "BOOST"]
+            if rng.random() < 0.4:
+                q, shape = q + " bar", shape + ["TERM"]
         toks = _parsing.spec_lex(q)
-        if toks is None or [t[0] for t in toks] != ["TERM", "COLUMN", "TERM"]:
+        if toks is None or [t[0] for t in toks] != shape:
             continue
         r, t = _parsing.impl_parse(q)
         ctx.count("queries given as text")
@@ -230,8 +248,9 @@ def run(ctx):
         sk = c03.skeleton(r["ok"])
         spec, why = c03.spec_parse(toks)
         if spec is not None and sk != spec:
-            ctx.fail("the query is not read as field `%s` and term `%s`: the clause is addressed elsewhere" % (
-                toks[0][1], toks[2][1]), {"q": q, "json": j, "tree": sk, "documented": spec})
+            ctx.fail("the query is not read as its documented syntax says (%s): the clauses are built from other "
+                     "words, fields or modifiers" % " ".join(t[1] for t in toks),
+                     {"q": q, "json": j, "tree": sk, "documented": spec})
     after = class_state(I)
     if after != before:
         ctx.fail("a call modified class-level attributes of the E-classes", {"before": before, "after": after})
